@@ -31,8 +31,8 @@ use core::future::{Future, IntoFuture};
 use core::pin::{pin, Pin};
 use core::task::{Context, Poll, Waker};
 use wit_bindgen::rt::async_support::{
-    future_new, raw_future_new, FutureVtable, FutureWriteCancel, FutureWriter, RawFutureWrite,
-    RawFutureWriteCancel,
+    future_new, raw_future_new, FutureOps, FutureVtable, FutureWriteCancel, FutureWriter,
+    RawFutureWrite, RawFutureWriteCancel, RawFutureWriter,
 };
 
 const BLOCKED: u32 = 0xffff_ffff;
@@ -179,6 +179,7 @@ unsafe extern "C" fn v_start_write(h: u32, buf: *const u8) -> u32 {
     H.writes_started += 1;
     H.write_buf = buf;
     mt::EXPECT_WAITABLE = h;
+    mt::EXPECT_PTR = core::ptr::null_mut(); // a new operation: its own callback pointer
     if H.reader_dropped {
         H.writer_told_dropped = true;
         return DROPPED;
@@ -241,6 +242,7 @@ unsafe extern "C" fn v_start_read(h: u32, buf: *mut u8) -> u32 {
     H.reads_started += 1;
     H.read_buf = buf;
     mt::EXPECT_WAITABLE = h;
+    mt::EXPECT_PTR = core::ptr::null_mut();
     let ans: u32 = kani::any();
     kani::assume(ans == COMPLETED || ans == BLOCKED);
     if ans == COMPLETED {
@@ -411,18 +413,7 @@ macro_rules! wsteps {
     };
 }
 
-/// After the user-level operation is gone a default-value write may still be
-/// in flight (`DeferredWrite`, kept alive by the waker it registered): the
-/// host resolves it.
-unsafe fn settle_deferred_write() {
-    if H.write_in_progress {
-        assert!(mt::L[0].reg_set, "deferred write is pending but not registered");
-        write_event();
-    }
-}
-
 unsafe fn finish_write(end: WEnd, held: u32, wrote: bool) {
-    settle_deferred_write();
     mt::OP_ALIVE = false;
     mt::assert_quiescent();
     assert!(!H.write_in_progress);
@@ -533,7 +524,56 @@ c20w!(c20_deep_rawwrite_ppc, VT1, 1, [P P C], cw_ppc);
 
 // ---- (2) typed API: FutureWriter / FutureWrite and the default value ------------------
 //
-// `DeferredWrite` (an `Arc` that is its own waker) is reachable here.
+// `RawFutureWriter::write_and_forget` is replaced by `stub_write_and_forget`:
+// the same protocol as the real `DeferredWrite` (start the write and poll it
+// once; poll it again when the completion event arrives; drop the result),
+// but driven by the harness on its own stack instead of by an `Arc` that is
+// its own waker, and with the completion event delivered right away.  Reason (measured): with the real `DeferredWrite` CBMC's symbolic
+// execution does not terminate (> 20 min) -- every waker drop may be the last
+// reference of the `Arc`, whose destructor drops the write, which cancels,
+// which drops a waker, ...  The `Arc`/`Wake` mechanics of `DeferredWrite` are
+// therefore outside the claim; *when* a default value is written, with which
+// value, and that the writable end is only released afterwards, is inside.
+
+/// Replacement for `alloc::alloc::alloc` in the typed harnesses: the one
+/// allocation on these paths is the 1-byte value buffer (`Cleanup::new` of the
+/// element layout).  Through the typed API the layout is loaded through a
+/// pointer CBMC cannot resolve statically, the request size becomes a symbolic
+/// term and the formula explodes (measured: 5.8 M variables / OOM).  The shim
+/// *asserts* that the requested layout is the 1-byte element layout and serves
+/// it with a constant-size request.
+unsafe fn alloc_one_byte(layout: Layout) -> *mut u8 {
+    assert!(layout.size() == 1 && layout.align() == 1, "unexpected allocation request");
+    std::alloc::alloc_zeroed(Layout::new::<u8>())
+}
+
+static mut DEFERRED_CALLS: u32 = 0;
+static mut DEFERRED_BLOCKED: bool = false;
+
+/// Harness-driven equivalent of `DeferredWrite`: start the write and poll it;
+/// if it blocks, the host's completion event is delivered (here, i.e. before
+/// anything else happens in the scenario) and the write is polled again, as
+/// `DeferredWrite::wake` would; its result is dropped.
+fn stub_write_and_forget<O: FutureOps + 'static>(this: RawFutureWriter<O>, value: O::Payload) {
+    unsafe {
+        DEFERRED_CALLS += 1;
+        assert!(DEFERRED_CALLS == 1, "more than one deferred write for one future");
+        let mut cx = Context::from_waker(Waker::noop());
+        let mut f = pin!(this.write(value));
+        match f.as_mut().poll(&mut cx) {
+            Poll::Ready(r) => drop(r),
+            Poll::Pending => {
+                pending_is_registered();
+                DEFERRED_BLOCKED = true;
+                write_event();
+                match f.as_mut().poll(&mut cx) {
+                    Poll::Ready(r) => drop(r),
+                    Poll::Pending => assert!(false, "deferred write still pending after its completion event"),
+                }
+            }
+        }
+    }
+}
 
 unsafe fn typed_setup(t1: &mut mt::wasip3_task, t2: &mut mt::wasip3_task_v2) -> FutureWriter<Val> {
     H.elem_size = 1;
@@ -545,8 +585,10 @@ unsafe fn typed_setup(t1: &mut mt::wasip3_task, t2: &mut mt::wasip3_task_v2) -> 
 
 /// A `FutureWriter` that is never written.
 #[kani::proof]
-#[kani::unwind(2)]
+#[kani::unwind(3)]
 #[kani::stub(wit_bindgen::rt::async_support::cabi::wasip3_task_set, crate::mock_task::stub_task_set)]
+#[kani::stub(wit_bindgen::rt::async_support::RawFutureWriter::write_and_forget, stub_write_and_forget)]
+#[kani::stub(std::alloc::alloc, alloc_one_byte)]
 fn c20_typed_writer_dropped_unwritten() {
     unsafe {
         let mut t1 = mt::new_v1_a();
@@ -563,8 +605,10 @@ fn c20_typed_writer_dropped_unwritten() {
 
 /// A `FutureWrite` dropped before its first poll.
 #[kani::proof]
-#[kani::unwind(2)]
+#[kani::unwind(3)]
 #[kani::stub(wit_bindgen::rt::async_support::cabi::wasip3_task_set, crate::mock_task::stub_task_set)]
+#[kani::stub(wit_bindgen::rt::async_support::RawFutureWriter::write_and_forget, stub_write_and_forget)]
+#[kani::stub(std::alloc::alloc, alloc_one_byte)]
 fn c20_typed_write_dropped_unpolled() {
     unsafe {
         let mut t1 = mt::new_v1_a();
@@ -579,8 +623,10 @@ fn c20_typed_write_dropped_unpolled() {
 
 /// A `FutureWrite` polled once and dropped mid-flight.
 #[kani::proof]
-#[kani::unwind(2)]
+#[kani::unwind(3)]
 #[kani::stub(wit_bindgen::rt::async_support::cabi::wasip3_task_set, crate::mock_task::stub_task_set)]
+#[kani::stub(wit_bindgen::rt::async_support::RawFutureWriter::write_and_forget, stub_write_and_forget)]
+#[kani::stub(std::alloc::alloc, alloc_one_byte)]
 fn c20_typed_write_dropped_midflight() {
     unsafe {
         let mut t1 = mt::new_v1_a();
@@ -610,8 +656,10 @@ fn c20_typed_write_dropped_midflight() {
 
 /// `FutureWrite::cancel()` and then the returned `FutureWriter` dropped.
 #[kani::proof]
-#[kani::unwind(2)]
+#[kani::unwind(3)]
 #[kani::stub(wit_bindgen::rt::async_support::cabi::wasip3_task_set, crate::mock_task::stub_task_set)]
+#[kani::stub(wit_bindgen::rt::async_support::RawFutureWriter::write_and_forget, stub_write_and_forget)]
+#[kani::stub(std::alloc::alloc, alloc_one_byte)]
 fn c20_typed_cancel_then_drop_writer() {
     unsafe {
         let mut t1 = mt::new_v1_a();
